@@ -113,6 +113,10 @@ func RunHistory(t *testing.T, seed int64, gen *Gen, fixed []Op, nops int, drain 
 // chargedProps: which properties a model/implementation disagreement on an operation of this kind
 // is charged to (the properties whose theorems unfold the model function of that operation).
 func chargedProps(opKind, mismatchKind string) []string {
+	if mismatchKind == "ordered-refinement" {
+		// the step is not one of the ordered-delivery steps `C05_ordered_partial` quantifies over
+		return []string{"C05"}
+	}
 	if mismatchKind == "wakes" {
 		// who is woken is part of every operation's modelled effect; C10 and C09 rest on it directly
 		return append([]string{"C10", "C09"}, chargedProps(opKind, "")...)
@@ -407,6 +411,12 @@ func runCore(t *testing.T, cfg coreCfg) {
 		d, err := m.Check(h.Lines)
 		if err != nil {
 			t.Fatal(err)
+		}
+		if d == nil {
+			oc, oe, os2 := m.OrdStats()
+			st.Count("ordered_refinement_steps_ok", oc)
+			st.Count("ordered_refinement_steps_excluded", oe)
+			st.Count("ordered_refinement_steps_clock_assumption_failed", os2)
 		}
 		if d != nil {
 			kind := mismatchKind(d.Answer)
